@@ -212,7 +212,9 @@ class ImplFn(Fn):
     collection of one-character strings); an index expression `s[i]` is NOT totalised: an expression containing one has
     Lean type `Option _` (`none` = IndexError raised while evaluating it, CPython's left-to-right, short-circuit order)
     and an `if` over such a test propagates `Py.Ret.indexError`; `raise ParseException(instring, <loc>, ...)` and
-    `return <loc>, <tokens>` are the only exits."""
+    `return <loc>, <tokens>` are the only exits.  Locals may be re-assigned (`loc += 1`, `start = loc`,
+    `name: T = e`, `m = min(a, b)` on ints: shadowing `let`s); the only loop is the character scan
+    `while v < B and s[v] (not) in CS: v += 1` -> `Py.scanWhile` (see `scan_loop`; any other `while` is refused)."""
 
     def __init__(self, fdef, where, attrs, name):
         super().__init__(fdef, where)
